@@ -233,16 +233,20 @@ PROPS = {
             dict(mode="det", name="timer_thread", quick=800, thorough=12000, nontrivial=r" opt\.take 0 0 [1-9]", timeout=300),
             # systematic: every schedule with <= 2 preemptions (time-out firings included) of a few small seeded scenarios
             dict(mode="detx", name="timer_thread", quick=3, thorough=24, nontrivial=r" opt\.take 0 0 [1-9]", timeout=600),
+            # wp-sleep: coroutine::sleep / park_timeout on the REAL runtime and timer thread (nobody rescues: a lost time-out is a hang)
+            dict(mode="live", name="sleep_live", quick=2400, thorough=24000, nontrivial=r" sleep\.sleep_co@\S+ opt\.take 0 0 [0-9]", timeout=600),
         ],
         trusted_base=TB_COMMON + [
+            "sleep_live (live mode): the recorded trace (a linearization of the hooked operations, logged under one lock) is the replay artefact; schedules come from the OS plus seeded perturbation; replayed by the product of one Cancel model (C09: the model with the steps of Sleep::subscribe / Park::subscribe) per coroutine, the timer being the shared event actor - a taken coroutine is attributed to its component by the pointer value; the timer-list operations in the trace are skipped there (the det families replay those)",
             "std::time::Duration (as_nanos, from_millis, from_nanos), u128::div_ceil, Instant arithmetic: modelled by their documented meaning on total nanoseconds",
             "tools/extract_consts_time.py (regular expressions over the current source) for the unit factors and HASH_CAP",
         ],
         assumptions=[
+            "sleep_live runs the runtime with the public knob config().set_timeout_ns(60 s) (idle-worker poll interval, default 10 ms): an idle worker's poll looks at its io timer list, whose hooked operations are in this family's filter and would keep the hang watchdog's event counter moving for ever; worker wake-ups do not depend on the poll (eventfd). Hang = no hooked event for 3.5 s while a scenario is unfinished (completion is the only real-time judgement; no upper bound on any single wait). park_timeout's lower bound is asserted for the first timed park of a coroutine only (a re-used Park may wake spuriously, by the property's own wording)",
             "durations up to usize::MAX ms (the stored word saturates beyond) and deadlines below 2^64 ns (584 years) - stated as hypotheses of the theorems",
             "real-time promptness on a loaded machine is not asserted anywhere (lower bounds are exact, lateness is only bounded in virtual time)",
         ],
-        rule="time_dur: one actor runs the real AtomicDuration::{new,store,take,get} and TimeOutList::add_timer+schedule_timer (virtual clock) over a stratified sample of the Duration range from the scenario seed (0, 1 ns, < 1 ms, k ms +- 1 ns, seconds, hours, 2^63/2^64 ns, usize::MAX ms, Duration::MAX); every output is recomputed by the Lean model; non-trivial = at least one store/take round trip; distinct = SHA-1 of the canonical trace",
+        rule="sleep_live: live mode, 1-3 workers, perturbation 0/10/30/60 % (yield / 20-200 us / 0.5-2 ms before hooked operations of src/sleep.rs, src/timeout_list.rs, src/park.rs, src/cancel.rs): 2-8 coroutines + 1-2 plain threads x 1-6 operations of coroutine::sleep(d) (threads: the thread::sleep fall-back), park_timeout(d) that nobody unparks, yield_now; d from {0, 1 ns, 999 ns, 1 us .. 999 us, 999.999 us, 1 ms, 1 ms + 1 ns, 1-5 ms, non-integral ms}; oracles: every call returns (watchdog), Instant-measured elapsed >= d for every sleep, calls strictly sequential per actor (no double resume), join Ok, stack value dropped once; non-trivial = the timer thread took a sleeper out of its sleep_co slot. time_dur: one actor runs the real AtomicDuration::{new,store,take,get} and TimeOutList::add_timer+schedule_timer (virtual clock) over a stratified sample of the Duration range from the scenario seed (0, 1 ns, < 1 ms, k ms +- 1 ns, seconds, hours, 2^63/2^64 ns, usize::MAX ms, Duration::MAX); every output is recomputed by the Lean model; non-trivial = at least one store/take round trip; distinct = SHA-1 of the canonical trace",
     ),
     "C06": dict(
         lean_props=["MayVerif.Props.C06"],
